@@ -7,14 +7,14 @@ import (
 
 // which rules serve which property (DESIGN.md section I.4)
 func init() {
-	serve("C01", "T1", "T2", "T3", "T6", "T8", "T9", "T10", "T11", "T13", "B1", "B2", "B3", "B3b", "G6", "U1", "V9", "B8", "F1", "F2", "F3", "T14", "F4", "U4", "V10", "F5")
+	serve("C01", "T1", "T2", "T3", "T6", "T8", "T9", "T10", "T11", "T13", "B1", "B2", "B3", "B3b", "G6", "U1", "V9", "B8", "F1", "F2", "F3", "T14", "F4", "U4", "V10", "F5", "F6")
 	serve("C02", "B1", "B1n", "B2", "B3", "B3b", "B4", "B6", "B7", "G6", "T8", "U2", "B8", "T1", "T2", "U3", "W15")
-	serve("C03", "F1", "F2", "F3", "T6", "T9", "B4", "B3b", "G6r", "L1@io", "G6", "F4", "F5")
+	serve("C03", "F1", "F2", "F3", "T6", "T9", "B4", "B3b", "G6r", "L1@io", "G6", "F4", "F5", "F6")
 	serve("C04", "W1", "W2", "W2b", "W3", "W5", "W6", "W7", "W8", "W9", "W10", "V6", "T5", "T11", "U1", "U2", "W12", "W13", "U3", "U4", "W14", "W15", "W16")
 	serve("C05", "V2", "V1", "V4", "V5", "V7", "V9", "V10", "V6")
 	serve("C06", "T1", "T2", "T3", "T4", "T5", "T8", "T10", "T12", "B2", "B3", "V1", "G6", "T14", "U4", "T15", "T16")
-	serve("C07", "B6", "B6m", "G5", "G6", "G6r", "B2", "B3", "T8", "W9", "W10", "U1", "T1", "T2", "T3", "T6", "T9", "T10", "T11", "T13", "F1", "F2", "F3", "F4", "B1", "B3b", "B4", "V9", "B8", "T14", "U4", "F5")
-	serve("C08", "G4", "G8", "G12", "G18", "G19", "G6", "R4", "B6", "B6m", "G27", "G16", "G33", "G34", "S2", "S3", "S4", "S9", "S10", "T1", "T2", "T3", "S12", "P16")
+	serve("C07", "B6", "B6m", "G5", "G6", "G6r", "B2", "B3", "T8", "W9", "W10", "U1", "T1", "T2", "T3", "T6", "T9", "T10", "T11", "T13", "F1", "F2", "F3", "F4", "B1", "B3b", "B4", "V9", "B8", "T14", "U4", "F5", "F6")
+	serve("C08", "G4", "G8", "G12", "G18", "G19", "G6", "R4", "B6", "B6m", "G27", "G16", "G33", "G34", "S2", "S3", "S4", "S9", "S10", "T1", "T2", "T3", "S12", "P16", "G39")
 	serve("C09", "L1", "L2", "L8", "P3", "P3c", "P8", "L6", "S4", "G7", "G7r", "G16", "P12", "L11", "G12", "P16", "P17", "P19")
 	serve("C10", "P3", "P3w", "P4", "P5", "P7", "L1", "L8", "G15", "G16", "G21", "P12", "G9", "P1", "P2", "P17", "P18", "P19", "L13")
 	serve("C11", "R1", "R2", "R3", "R4", "P1", "P2", "G17", "P11", "W5", "P8", "R5", "P7", "W13", "W14", "P16", "W15", "W16")
